@@ -377,6 +377,17 @@ def run_repeat(case):
   require(same_batches(first, inter_a) and same_batches(first, inter_b),
           'interleaved_iterations_differ',
           lambda: _diff(case, first, inter_a) + ' | ' + _diff(case, first, inter_b))
+  # A pass that is abandoned half-way (islice over an endless stream, an early
+  # break, an exception in the consumer) leaves nothing behind: the next pass
+  # over the same view is the seeded stream again.
+  if len(first) >= 2:
+    partial = iter(view)
+    for _ in range(max(1, len(first) // 2)):
+      next(partial)
+    del partial
+    after = read(view, case)
+    require(same_batches(first, after), 'iteration_after_an_abandoned_pass_differs',
+            lambda: _diff(case, first, after))
   other_call = 'hparams' if case['call'] != 'hparams' else 'kwargs'
   view3 = make_view(make_dataset(case), case, call=other_call)
   got = read(view3, case)
@@ -459,7 +470,11 @@ def hp_strategy(draw, tier, shuffle='any', seeds='any'):
   bd = _bounds(tier)
   n = draw_size(draw, bd['nmax'])
   epochs = pick(draw, [2, 1, None, 3, 1, None, 4, 2, None, 1] +
-                list(range(4, bd['emax'] + 1)) + [3])
+                list(range(4, bd['emax'] + 1)) + [3, 11, 25, 33])
+  if epochs is not None and epochs > bd['emax']:
+    # many epochs over a small dataset (the epoch-derived count is an integer
+    # function of N * num_epochs, whatever the magnitudes)
+    n = 1 + n % 25
   total = n * (epochs if epochs is not None else pick(draw, [1, 2, 3]))
   b = draw_batch_size(draw, n, total, bd['bmax'])
   drop = draw(BOOL)
